@@ -31,11 +31,13 @@ PROP = "C16"
 
 
 # ---- SMT-LIB export --------------------------------------------------------------------------------------
-def smt2_shape(variant, optimizer, when):
-    name = f"smt2/{variant}/{optimizer}/export_{when}"
+def smt2_shape(variant, optimizer, when, max_iter=None):
+    name = f"smt2/{variant}/{optimizer}/export_{when}" + (f"/max_iter={max_iter}" if max_iter else "")
 
     def build(P):
         cfg = {"optimizer": "optimize"} if optimizer == "optimize" else {}
+        if max_iter:
+            cfg["max_iter"] = max_iter
         pb, obs = c14.build_rich(P, dict(c14.CANON), {}, variant)
         tmp = tempfile.mkdtemp(prefix="c16_")
         fn = os.path.join(tmp, "p.smt2")
@@ -43,7 +45,8 @@ def smt2_shape(variant, optimizer, when):
         # what the real code handed over); 'after_solve': one successful solve() precedes the export
         with warnings.catch_warnings():
             warnings.simplefilter("ignore")
-            with stubs.stubbed(P.ex, max_checks=3, script=[z3.sat, z3.unsat, z3.unsat], core_mode="all") as (solvers0, proxy0):
+            script0 = [z3.sat, z3.sat, z3.sat] if max_iter else [z3.sat, z3.unsat, z3.unsat]
+            with stubs.stubbed(P.ex, max_checks=3, script=script0, core_mode="all") as (solvers0, proxy0):
                 solver = ps.SchedulingSolver(problem=pb, **cfg)
                 if when == "after_solve":
                     solver.solve()
@@ -70,6 +73,7 @@ def smt2_shape(variant, optimizer, when):
     sh = Shape(name, build, obligations, initialize=False)
     sh.grid = False
     sh.spec = (variant, optimizer, when)
+    sh.max_iter = max_iter
     return sh
 
 
@@ -106,7 +110,9 @@ def _halves(ctx, path, valid, phi, what):
     cv, _ = formula.constants(valid)
     cp, _ = formula.constants(phi)
     pn = {t.decl().name() for t in ctx.P.terms.values() if z3.is_expr(t)}
-    aux = [c for n, c in cp.items() if n not in cv and n not in pn]
+    # symbols handed out by the solver stub (model values m@k@...) are not auxiliaries: they denote the
+    # values of the models found before the export, constrained by the contract facts of the path
+    aux = [c for n, c in cp.items() if n not in cv and n not in pn and not n.startswith("m@")]
     lost = formula.forall(aux, z3.Not(z3.And(phi)))
     v, m, _ = formula.solve_shrunk(base + list(valid) + [lost], 30000, quantified=bool(aux))
     if v == "unsat":
@@ -130,14 +136,19 @@ def ob_exp_complete(ctx, path):
 
 
 def replay_smt2(desc):
-    """real code, real z3, concrete parameters: export (before / after solve), parse the file back and
-    compare satisfiability of export and of the solver's own assertions under the witness schedule"""
+    """real code, real z3, concrete parameters: export (before / after a real solve), parse the file back;
+    the exported script must be satisfiable exactly when a freshly initialised solver's system is, the
+    witness schedule must be judged alike by both, and a schedule just returned by solve() must be a model of
+    the export"""
     import symx.harness as H
 
     shape = H.get_shape(desc["module"], desc["shape"])
     variant, optimizer, when = shape.spec
     w = desc["witness"]
     cfg = {"optimizer": "optimize"} if optimizer == "optimize" else {}
+    if getattr(shape, "max_iter", None):
+        cfg["max_iter"] = shape.max_iter
+    returned = None
     with quiet(), warnings.catch_warnings():
         warnings.simplefilter("ignore")
         P = engine.Params("conc", values=w["params"])
@@ -146,7 +157,7 @@ def replay_smt2(desc):
         tmp = tempfile.mkdtemp(prefix="c16r_")
         fn = os.path.join(tmp, "p.smt2")
         if when == "after_solve":
-            solver.solve()
+            returned = solver.solve()
         try:
             solver.export_to_smt2(fn)
             text = open(fn).read()
@@ -158,7 +169,7 @@ def replay_smt2(desc):
         os.rmdir(tmp)
         pb2, obs2 = c14.build_rich(engine.Params("conc", values=w["params"]), dict(c14.CANON), {}, variant)
         s2 = ps.SchedulingSolver(problem=pb2, **cfg)
-        r2 = s2.solve()
+        s2.initialize()
         own = list(s2._solver.assertions())
     engine.reset_z3_globals()
     if err is not None:
@@ -174,17 +185,38 @@ def replay_smt2(desc):
     except z3.Z3Exception as e:
         print(f"CONFIRMED: exported text does not parse: {e}")
         return 1
+
+    def verdict(asst, extra=()):
+        sv = z3.Solver()
+        sv.add(asst)
+        sv.add(list(extra))
+        return sv.check()
+
+    ra, rb = verdict(exported), verdict(own)
+    print(f"replay: exported script -> {ra}; freshly initialised solver's system -> {rb}")
+    if ra != rb and z3.unknown not in (ra, rb):
+        print("CONFIRMED: the exported SMT-LIB script and the problem's constraint system disagree on satisfiability")
+        return 1
     pins = []
     for n, v in (w.get("pins") or {}).items():
+        if "@" in n or "!" in n:
+            continue
         pins.append(z3.Bool(n) == z3.BoolVal(v) if isinstance(v, bool) else z3.Int(n) == v)
-    a, b = z3.Solver(), z3.Solver()
-    a.add(exported + pins)
-    b.add(own + pins)
-    ra, rb = a.check(), b.check()
-    print(f"replay: witness schedule: exported script -> {ra}; solver's own system -> {rb}; solve() -> {'solution' if r2 else r2}")
-    if ra != rb and z3.unknown not in (ra, rb):
-        print("CONFIRMED: the exported SMT-LIB script and the system the solver checks disagree on this schedule")
+    pa, pb_ = verdict(exported, pins), verdict(own, pins)
+    print(f"replay: witness schedule: exported script -> {pa}; problem's system -> {pb_}")
+    if pa != pb_ and z3.unknown not in (pa, pb_):
+        print("CONFIRMED: the exported SMT-LIB script and the problem's constraint system disagree on the witness schedule")
         return 1
+    if returned:
+        sched = []
+        for n, t in returned.tasks.items():
+            if t.scheduled:
+                sched += [z3.Int(f"{n}_start") == t.start, z3.Int(f"{n}_end") == t.end]
+        rs = verdict(exported, sched)
+        print(f"replay: the schedule solve() just returned is a model of the export: {rs}")
+        if rs == z3.unsat and verdict(own, sched) == z3.sat:
+            print("CONFIRMED: the schedule returned by solve() is not a model of the script exported afterwards")
+            return 1
     return 0
 
 
@@ -588,6 +620,8 @@ def shapes(tier):
                 continue
             for when in ("before_solve", "after_solve"):
                 out.append(smt2_shape(v, opt, when))
+    out.append(smt2_shape("objective", "incremental", "after_solve", max_iter=1))
+    out.append(smt2_shape("objective", "incremental", "after_solve", max_iter=2))
     for v in ("plain", "workers", "cumulative", "buffer_indicator", "optional_zero"):
         out.append(table_shape(v, "dataframe"))
         out.append(table_shape(v, "excel"))
